@@ -1,5 +1,46 @@
-import XlVerif.Base
-/-! Driver for C06 (stub: replaced when the property's model is built). -/
+import XlVerif.Drv.EvalWire
+import XlVerif.Model.C06
+import XlVerif.Spec.C06
+/-! Driver for C06.
+  `C06 eval <fuel> <cells> <ranges> <names> <addr>` →
+     `impl=<result>  trace=<number of formula evaluations started>  strict=<0|1>  cyc=<0|1>
+      n=<formulaCount>  cbound=<cycle message bound>  fbound=<failure message bound>`
+  `impl` is the evaluator model (`Model.Evaluator.evaluate` under `c06Sem`); `cyc` is the Spec oracle
+  (`Spec.C06.cyclicFrom` on the static dependency function `Model.C06.deps`), the bounds are those of `Props.C06.message_linear`.
+-/
 namespace XlVerif.Drv.C06
-def handle (_fields : List String) : String := "error=not-implemented"
+open XlVerif XlVerif.Model.Evaluator XlVerif.Drv.EvalWire XlVerif.Model.C06
+
+/-- `stdSem` plus two functions the harness registers in the evaluator's namespace:
+    20 = `BOOMRT()` raises `RuntimeError('boom')` (re-raised unchanged: message length 4),
+    21 = `BOOMVE()` raises `ValueError('boom')` (wrapped once: `repr` length 18) -/
+def c06Sem : Sem where
+  app := fun f args =>
+    match f with
+    | 20 => .raiseRuntime 4
+    | 21 => .raiseOther 18
+    | _ => stdSem.app f args
+  truth := stdSem.truth
+
+/-- longest `repr` the semantics can raise (for the failure bound) -/
+def reprBound : Nat := 20
+
+def handle (fields : List String) : String :=
+  match fields with
+  | ["eval", fuel, cells, ranges, names, addr] =>
+    (match fuel.toNat?, modelOfWire? cells ranges names, parseText? addr with
+     | some n, some m, some a =>
+       let (_, r, tr) := evaluate c06Sem n m a
+       let N := formulaCount m
+       let L := maxAddrLen m
+       let M := maxFormulaLen m
+       let cyc := Spec.C06.cyclicFrom (deps m) (N + 2) [] (m.resolve a)
+       kv [("impl", resW r), ("trace", toString tr.length),
+           ("strict", if strictModelB m then "1" else "0"),
+           ("cyc", if cyc then "1" else "0"),
+           ("n", toString N),
+           ("cbound", toString (Spec.C06.cycleMsgBound N L)),
+           ("fbound", toString (Spec.C06.failMsgBound L M reprBound))]
+     | _, _, _ => "error=bad-args")
+  | _ => "error=bad-request"
 end XlVerif.Drv.C06
